@@ -204,6 +204,43 @@ theorem resolve_history_independent (h1 h2 : List Ev) (ok1 : ∀ e ∈ h1, e.ok)
   have e3 := hk (.builtin x) (Or.inr (by intro g ty h; cases h))
   simp only [resolve, resolveWith, Gen.resolveOrder, firstSome, tryStep, e1, e2, e3]
 
+/-- a package-level key, once in the table, stays there through every event -/
+theorem glob_mem_step (t : Tab) (e : Ev) (n : String) (h : Key.glob n ∈ t.keys) : Key.glob n ∈ (step t e).keys := by
+  cases e with
+  | compile f tys => exact (compile_keeps t f tys (.glob n) (fun ty => by simp)).mpr h
+  | addKey k =>
+    simp only [step]
+    split
+    · exact h
+    · exact List.mem_cons_of_mem _ h
+
+theorem glob_mem_foldl (h : List Ev) (t : Tab) (n : String) (hm : Key.glob n ∈ t.keys) :
+    Key.glob n ∈ (h.foldl step t).keys := by
+  induction h generalizing t with
+  | nil => exact hm
+  | cons e es ih => exact ih _ (glob_mem_step t e n hm)
+
+theorem glob_mem_predeclare (names : List String) (t : Tab) (n : String) (hn : n ∈ names ∨ Key.glob n ∈ t.keys) :
+    Key.glob n ∈ (predeclare t names).keys := by
+  unfold predeclare
+  induction names generalizing t with
+  | nil =>
+    rcases hn with h | h
+    · cases h
+    · exact h
+  | cons a as ih =>
+    simp only [List.foldl_cons]
+    apply ih
+    rcases hn with h | h
+    · rcases List.mem_cons.mp h with rfl | h
+      · right
+        simp only [step]
+        split
+        · assumption
+        · exact List.mem_cons_self
+      · exact Or.inl h
+    · exact Or.inr (glob_mem_step t _ n h)
+
 /-! non-vacuity: f first declares a type `acc`; the redefinition has a parameter `acc` -/
 def hist : List Ev := [.addKey (.builtin "println"), .addKey (.glob "total"), .compile "main.f" ["acc"], .compile "main.g" ["st"]]
 example : ∀ e ∈ hist, e.ok := by
